@@ -3,6 +3,7 @@
 package flyt
 
 import (
+	"time"
 	"context"
 	"fmt"
 )
@@ -186,4 +187,43 @@ func VH_C07_reconfigured() {
 	} else if n2 < n1 {
 		vCover("budget-lowered-between-runs")
 	}
+}
+
+// "the same treatment as a single node run" includes what an attempt is handed: while the run's
+// context is alive, every attempt of every item receives a context that is alive (an exec that
+// passes its context on to an HTTP call would otherwise fail on its own)
+func VH_C07_attemptContext() {
+	vUnwind(24)
+	N := 1 + vChoice("N", vParam("N", 2))
+	attempts := [2]int{}
+	var ctx context.Context = vNewCtx()
+	if vNondet[bool]("realContext") {
+		c, cancel := context.WithCancel(context.Background())
+		defer cancel()
+		ctx = c
+	}
+	b := NewBatchNode().WithMaxRetries(N).WithBatchConcurrency(vChoice("concurrency", 2)).
+		WithPrepFunc(func(ctx context.Context, s *SharedStore) ([]Result, error) {
+			return []Result{NewResult(100), NewResult(101)}, nil
+		}).
+		WithExecFunc(func(ctx context.Context, item Result) (Result, error) {
+			k := bIndex(item)
+			var err error
+			live := ctx.Err() == nil
+			vMonC(1, func() {
+				attempts[k]++
+				vAssert(live, "attempt-receives-a-live-context-while-the-run-is-alive")
+				if k == 0 {
+					err = vNewErr() // item 0 always fails
+				}
+			})
+			return item, err
+		})
+	if vNondet[bool]("withWait") {
+		vCover("attempt-context-after-a-wait")
+		b.WithWait(time.Millisecond)
+	}
+	Run(ctx, b, NewSharedStore())
+	vAssert(attempts[0] == N && attempts[1] == 1, "failing-item-gets-exactly-N-attempts")
+	vCover("attempt-context")
 }
